@@ -148,8 +148,30 @@ func TestVerifBounded_C16_Generators(t *testing.T) {
 				taken = append(taken, x)
 			}
 		}
+		// the taken tokens are a set: their order carries no meaning (sorted, reversed, shuffled, with foreign tokens mixed in)
+		for k := 0; k < rnd.Intn(5); k++ {
+			taken = append(taken, rnd.Uint32()|1<<31|7) // foreign: not congruent with any zone's own tokens unless zone 7
+		}
+		switch it % 3 {
+		case 1:
+			for a, b := 0, len(taken)-1; a < b; a, b = a+1, b-1 {
+				taken[a], taken[b] = taken[b], taken[a]
+			}
+		case 2:
+			rnd.Shuffle(len(taken), func(a, b int) { taken[a], taken[b] = taken[b], taken[a] })
+		}
+		own := map[uint32]bool{}
+		for _, x := range all {
+			own[x] = true
+		}
 		want := rnd.Intn(513)
-		free := 512 - len(taken)
+		free := 512
+		for _, x := range taken {
+			if own[x] {
+				free--
+				own[x] = false
+			}
+		}
 		out := g.GenerateTokens(want, taken)
 		checkOut(fmt.Sprintf("c16-spread-filter:%d", it), out, taken, want, false)
 		exp := want
@@ -160,7 +182,7 @@ func TestVerifBounded_C16_Generators(t *testing.T) {
 			report(fmt.Sprintf("c16-spread-filter:%d:count", it), fmt.Sprintf("%d tokens, expected %d (requested %d, free %d)", len(out), exp, want, free))
 		}
 	}
-	fmt.Printf("BOUNDED-CASES name=C16_Generators n=%d distinct=%d bound=300 random-generator runs (<=50 taken, <=200 requested) and 100 spread-minimising filter runs with random taken subsets, seed %d\n", cases, cases, seed)
+	fmt.Printf("BOUNDED-CASES name=C16_Generators n=%d distinct=%d bound=300 random-generator runs (<=50 taken, <=200 requested) and 100 spread-minimising filter runs with random taken subsets in sorted, reversed and shuffled order, seed %d\n", cases, cases, seed)
 	if fails > 0 {
 		t.Fatalf("%d mismatches", fails)
 	}
